@@ -7,9 +7,13 @@ export CARGO_TARGET_DIR=$wt/target RUST_BACKTRACE=0 CARGO_NET_OFFLINE=true
 git -C $wt checkout -q -- . ; git -C $wt clean -fdq -e target -e Cargo.lock
 git -C $wt apply $out/patch.diff || { echo "CONFIRM $pid/$v: patch does not apply"; exit 1; }
 suite=$(cd $wt && cargo nextest run --workspace --no-fail-fast --offline 2>&1 | grep -E "Summary|error(\[|:)" | head -3)
-demo_with=$(cd $out/demo && CARGO_TARGET_DIR=$wt/target/demo cargo test --offline 2>&1 | grep -E "^test result|error(\[|:)|could not compile" | head -5; )
+rundemo() {
+  if [ -f $out/demo/Cargo.toml ]; then (cd $out/demo && CARGO_TARGET_DIR=$wt/target/demo cargo test --offline 2>&1 | grep -E "^test result|error(\[|:)|could not compile" | head -5)
+  else (cd $out/demo && sh ./run.sh 2>&1 | grep -E "^test result|Summary|error(\[|:)|could not compile" | head -5); echo "run.sh exit=$?"; fi
+}
+demo_with=$(rundemo)
 git -C $wt checkout -q -- . ; git -C $wt clean -fdq -e target -e Cargo.lock
-demo_without=$(cd $out/demo && CARGO_TARGET_DIR=$wt/target/demo cargo test --offline 2>&1 | grep -E "^test result|error(\[|:)|could not compile" | head -5)
+demo_without=$(rundemo)
 echo "CONFIRM $pid/$v"
 echo " suite(with patch): $suite"
 echo " demo(with patch): $demo_with"
